@@ -38,7 +38,7 @@ RULE = (
     "equal those at the restored export, and write/load_time_information round-trips the history exactly. "
     "Non-trivial = at least one array with >=2 cells restored; distinct = hash of spec."
 )
-BUDGET = {"quick": {"cases": 800, "seconds": 38}, "thorough": {"cases": 12000, "seconds": 1150}}
+BUDGET = {"quick": {"cases": 1500, "seconds": 38}, "thorough": {"cases": 30000, "seconds": 1150}}
 TECHNIQUE = "property-based testing (Hypothesis): export / import round trip against the written arrays"
 LEVEL_TEXT = ("Exploration: hundreds of generated md-grids per run mixing cell shapes within and across "
               "subdomains of one dimension, with interfaces, several time steps and every import entry point "
@@ -56,17 +56,17 @@ ASSUMPTIONS = [
     "finite values only",
 ]
 REQUIRED = {
-    "mode-vtu": 0.1, "mode-pvd": 0.08, "mode-mdgpvd": 0.06, "mode-mixin-pvd": 0.03, "mode-mixin-mdgpvd": 0.03,
-    "mode-mixin-vtu": 0.03, "binary": 0.3, "ascii": 0.1, "several-sd-per-dim": 0.3, "poly-mixed": 0.15,
+    "mode-vtu": 0.1, "mode-pvd": 0.05, "mode-mdgpvd": 0.06, "mode-mixin-pvd": 0.02, "mode-mixin-mdgpvd": 0.02,
+    "mode-mixin-vtu": 0.02, "binary": 0.3, "ascii": 0.05, "several-sd-per-dim": 0.3, "poly-mixed": 0.06,
     "has-interface-data": 0.25, "sd-dim0": 0.1, "sd-dim1": 0.15, "sd-dim2": 0.3, "sd-dim3": 0.15,
-    "kind-poly": 0.1, "kind-polyx": 0.05, "kind-tri": 0.05, "kind-tet": 0.03, "kind-cart": 0.1,
+    "kind-poly": 0.08, "kind-polyx": 0.04, "kind-tri": 0.04, "kind-tet": 0.02, "kind-cart": 0.1,
     "vector-data": 0.3, "multi-step": 0.3, "form-keys": 0.15, "form-tuples": 0.15, "form-tuples2d": 0.08,
-    "ikeys-none": 0.1, "ikeys-list": 0.2, "mixed-shapes-in-dim": 0.1,
+    "ikeys-none": 0.1, "ikeys-list": 0.2, "mixed-shapes-in-dim": 0.04,
 }
 
 NAMES = ["p", "u", "pressure", "flux_x", "T"]
 FNAMES = ["data", "state", "run_a"]
-MODES = ["mdgpvd", "pvd", "vtu", "mixin-pvd", "mixin-mdgpvd", "pvd", "mixin-vtu", "vtu", "mdgpvd"]
+MODES = ["vtu", "pvd", "mdgpvd", "mixin-pvd", "vtu", "mixin-mdgpvd", "pvd", "mixin-vtu", "mdgpvd"]
 
 
 # ----------------------------------------------------------------------------- strategy
@@ -75,7 +75,7 @@ def _spec(draw, tier):
     m = draw(hand_mdg_spec())
     sd_dims = sorted({s["dim"] for s in m["sds"]})
     intf_dims = sorted({m["sds"][it["lo"]]["dim"] for it in m["intfs"]})
-    s = {"mdg": m, "binary": draw(st.sampled_from([True, True, False])), "const_sep": draw(st.sampled_from([False, False, False, True])),
+    s = {"mdg": m, "binary": draw(st.sampled_from([True, False, True])), "const_sep": draw(st.sampled_from([False, False, False, True])),
          "fresh": draw(st.booleans()), "fname": draw(st.sampled_from(FNAMES))}
     nk = draw(st.integers(1, 3))
     names = draw(st.lists(st.sampled_from(NAMES), min_size=nk, max_size=nk, unique=True))
